@@ -77,11 +77,18 @@ struct fake_stream
 {
     std::string data; size_t pos = 0; std::vector<size_t> sched; size_t calls = 0;
     bool end_is_error = false; size_t reads_after_end = 0;
+    bool closed = false;             // control_connection::disconnect() closed the socket: reads fail, unread data is gone
     std::string written;
     template <typename MutableBufferSequence>
     std::size_t read_some(const MutableBufferSequence & buffers, boost::system::error_code & ec)
     {
         size_t room = boost::asio::buffer_size(buffers);
+        if (closed)
+        {
+            if (++reads_after_end > 1000) throw livelock_detected();
+            ec = boost::system::error_code(boost::asio::error::bad_descriptor);
+            return 0;
+        }
         if (pos >= data.size())
         {
             if (++reads_after_end > 1000) throw livelock_detected();
@@ -107,7 +114,7 @@ struct fake_socket : socket_base
     boost::asio::ip::tcp::socket dummy{ioc};
     void connect(const boost::asio::ip::tcp::resolver::results_type &, boost::system::error_code & ec) override { ec = {}; }
     void connect(const boost::asio::ip::tcp::endpoint &, boost::system::error_code & ec) override { ec = {}; }
-    bool is_connected() const override { return true; }
+    bool is_connected() const override { return !st.closed; }
     bool has_ssl_support() const override { return false; }
     void ssl_handshake(boost::asio::ssl::stream_base::handshake_type, boost::system::error_code & ec) override { ec = {}; }
     void ssl_shutdown(boost::system::error_code & ec) override { ec = {}; }
@@ -119,7 +126,7 @@ struct fake_socket : socket_base
     std::size_t read_line(std::string & buf, std::size_t max_size, boost::system::error_code & ec) override
     { return socket_base::read_line<fake_stream>(st, buf, max_size, ec); }
     void shutdown(boost::asio::ip::tcp::socket::shutdown_type, boost::system::error_code & ec) override { ec = {}; }
-    void close(boost::system::error_code & ec) override { ec = {}; }
+    void close(boost::system::error_code & ec) override { st.closed = true; ec = {}; }
     boost::asio::ip::tcp::endpoint local_endpoint(boost::system::error_code & ec) const override { ec = {}; return {}; }
     boost::asio::ip::tcp::endpoint remote_endpoint(boost::system::error_code & ec) const override { ec = {}; return {}; }
     boost::asio::ip::tcp::socket::executor_type get_executor() override { return dummy.get_executor(); }
@@ -153,7 +160,7 @@ static std::string run_frame(const std::vector<std::string> & f)
         catch (const livelock_detected &) { out += "livelock"; break; }
         if (cc.buffer_.size() > 8192) { out += " BUFFER-OVER-CAP"; break; }
     }
-    std::string left = cc.buffer_ + raw->st.data.substr(std::min(raw->st.pos, raw->st.data.size()));
+    std::string left = cc.buffer_ + (raw->st.closed ? std::string() : raw->st.data.substr(std::min(raw->st.pos, raw->st.data.size())));
     if (out.size() >= 8 && out.compare(out.size() - 8, 8, "livelock") == 0) return out;
     return out + " | left=" + hex(left);
 }
